@@ -150,6 +150,8 @@ type distrEnv struct {
 	keyTab  map[string]int // state key -> rank
 	shareNm map[string]int
 	sdNm    map[string]int
+	// the configuration has shares adding up to almost one: most inflows are a few coins only
+	smallInflows bool
 }
 
 func shareDec(rng *Rng) sdk.Dec {
@@ -170,6 +172,7 @@ func shareDec(rng *Rng) sdk.Dec {
 // genDistrCfg builds a random graph; kclass != 0 forces one of the known-finding shapes.
 func (e *distrEnv) genDistrCfg(kclass int) distrCfg {
 	rng := e.rng
+	e.smallInflows = false
 	n := 1 + rng.Intn(4)
 	var c distrCfg
 	internalN := 0
@@ -296,6 +299,41 @@ func (e *distrEnv) genDistrCfg(kclass int) distrCfg {
 			if tot.Add(b).LT(sdk.NewDecWithPrec(98, 2)) {
 				s.burn = b
 			}
+		}
+		pNear := 5
+		for _, src := range s.sources {
+			if src.typ == distrtypes.InternalAccount {
+				pNear = 35 // fed by an internal account: its inflow has a fractional part
+			}
+		}
+		if rng.Chance(pNear) {
+			// named shares (and the burn share) that add up to one minus one to three units of the last digit: the primary
+			// destination gets what the truncations leave, which is next to nothing
+			for len(s.shares) < 2 {
+				s.shares = append(s.shares, dShare{name: fmt.Sprintf("sh%d_n%d", i, len(s.shares)), share: sdk.ZeroDec(), dest: dest()})
+			}
+			one := new(big.Int).Exp(bi(10), bi(18), nil)
+			left := new(big.Int).Sub(one, bi(1+rng.I64n(3)))
+			s.burn = sdk.ZeroDec()
+			if rng.Chance(30) {
+				b := rng.BigBelow(new(big.Int).Quo(left, bi(3)))
+				s.burn = sdk.NewDecFromBigIntWithPrec(b, 18)
+				left.Sub(left, b)
+			}
+			for j := range s.shares {
+				var part *big.Int
+				if j == len(s.shares)-1 {
+					part = left
+				} else if rng.Bool() {
+					part = new(big.Int).Quo(left, bi(int64(len(s.shares)-j)))
+				} else {
+					part = rng.BigBelow(new(big.Int).Add(left, bi(1)))
+				}
+				s.shares[j].share = sdk.NewDecFromBigIntWithPrec(part, 18)
+				left = new(big.Int).Sub(left, part)
+			}
+			e.rep.Count("gen.shares_add_up_to_one_minus_a_few_units")
+			e.smallInflows = true // a few coins per block: what reaches a second-level sub-distributor is then below one coin
 		}
 		c.subs = append(c.subs, s)
 	}
@@ -1006,7 +1044,11 @@ func runDistrCase(ta *TestApp, seed uint64, idx int, rep *Report, profile string
 		for _, d := range denoms {
 			if (d == 0 && !skipFirst) || (d != 0 && rng.Chance(60)) {
 				var a *big.Int
-				switch rng.Intn(5) {
+				sel := rng.Intn(5)
+				if e.smallInflows && sel != 1 {
+					sel = 0
+				}
+				switch sel {
 				case 0:
 					a = bi(1 + rng.I64n(5))
 				default:
